@@ -208,8 +208,9 @@ func (p *Parser) recoverFromError(ctx context.Context, stream *TokenStream, stac
 	s := p.next.offset
 	e := s
 	for _, tok := range stream.pending {
-		// Try to cover all nearby invalid tokens.
-		if token.Type(tok.symbol) == token.INVALID_TOKEN {
+		// Try to cover all nearby invalid tokens (but never start in front of an empty
+		// symbol that is already on the stack).
+		if token.Type(tok.symbol) == token.INVALID_TOKEN && tok.offset >= stack[len(stack)-1].sym.endoffset {
 			if s > tok.offset {
 				s = tok.offset
 			}
